@@ -1016,9 +1016,8 @@ impl<'a> Drop for ZipFile<'a> {
                 match reader.read(&mut buffer) {
                     Ok(0) => break,
                     Ok(_) => (),
-                    Err(e) => {
-                        panic!("Could not consume all of the output of the current ZipFile: {e:?}")
-                    }
+                    // A destructor cannot report the failure; the next read of the stream will.
+                    Err(_) => break,
                 }
             }
         }
